@@ -287,8 +287,6 @@ theorem genPrincipal_none_cases (g : Gen) (key : Str) (tcp auth : Bool) :
   all_goals
     cases extractNameInBrackets (trimPrefix attrRequestHeader key) <;> simp
 
-theorem id_not (neg : Bool) : (if neg then Matcher.not else id) = if neg then Matcher.not else id := rfl
-
 theorem rulePermission_exact (tcp allow auth : Bool) (req : Request) (r : MRule) (cl : List Matcher)
     (h : rulePermission tcp allow r = some cl) (hex : MRuleExact tcp auth req r)
     (htr : permTranslated tcp r = true) : evalAll cl req = fieldSem req r := by
